@@ -233,7 +233,7 @@ func TestC07Adapter(t *testing.T) {
 }
 
 func TestC07Tunnel(t *testing.T) {
-	vlib.SetRule("C07", "TestC07Tunnel", "end to end on a real 2-node cluster: client = client.Dialer or a forward.Forwarder in front of a plain TCP connection, entering at the upstream's node or the other one, upstream = Go SDK raw TCP accept or the agent TCP proxy in front of a local TCP server; the upstream echoes; drawn write sizes (0 B-1 MiB, total <= 2 MiB, crossing the yamux window) and read-buffer cycles, writer and reader running concurrently; then either end closes; oracle: the echoed stream equals the written stream byte for byte; after the client closes the upstream's connection ends and the server holds no open stream; after the upstream closes - or, behind the agent, resets - its connection the client reads end of stream; non-trivial = cross-node path or a read buffer smaller than a write, with >= 64 KiB transferred")
+	vlib.SetRule("C07", "TestC07Tunnel", "end to end on a real 2-node cluster: client = client.Dialer or a forward.Forwarder in front of a plain TCP connection, entering at the upstream's node or the other one, upstream = Go SDK raw TCP accept or the agent TCP proxy in front of a local TCP server; the upstream echoes; drawn write sizes (0 B-1 MiB, total <= 2 MiB, crossing the yamux window) and read-buffer cycles, writer and reader running concurrently; then either end closes; a tenth of the cases are one-way instead: 200 KiB into an upstream that reads 4 KiB every 160 ms while the dialer closes right after its last write; oracle: the echoed stream equals the written stream byte for byte; after the client closes the upstream's connection ends and the server holds no open stream; after the upstream closes - or, behind the agent, resets - its connection the client reads end of stream; non-trivial = cross-node path or a read buffer smaller than a write, with >= 64 KiB transferred")
 	vlib.Run(t, "C07", func(c *vlib.Case) {
 		// a tunnel may outlive the proxy's request timeout: with a short timeout some
 		// cases pause for longer than it in the middle of the stream
@@ -274,6 +274,50 @@ func TestC07Tunnel(t *testing.T) {
 		}
 		// the upstream service may also abort its connection (RST) instead of closing it:
 		// behind the agent the service's socket is a real TCP connection
+		// one-way transfer into a slow reader: the dialer writes everything and closes at
+		// once, the upstream takes several seconds more to read what is buffered in
+		// the tunnel; every byte must still arrive, followed by end of stream
+		slowSink := !upstreamCloses && c.Chance("slowSink", 1, 10)
+		type sinkResult struct {
+			n   int
+			bad int // offset of the first wrong byte, -1 if none
+			err error
+		}
+		sinkDone := make(chan sinkResult, 1)
+		if slowSink {
+			total = 200 << 10
+			ws = nil
+			for left := total; left > 0; {
+				n := c07Sizes[c.Pick("sinkSize", len(c07Sizes))]
+				if n == 0 || n > left {
+					n = left
+				}
+				ws = append(ws, n)
+				left -= n
+			}
+			up.TCPHandler = func(conn net.Conn) {
+				_, _ = fmt.Fprintf(conn, "STAMP %s %s\n", up.Endpoint, up.ID)
+				res := sinkResult{bad: -1}
+				buf := make([]byte, 4096)
+				for {
+					n, err := conn.Read(buf)
+					want := streamBytes(res.n, n)
+					for i := 0; i < n && res.bad < 0; i++ {
+						if buf[i] != want[i] {
+							res.bad = res.n + i
+						}
+					}
+					res.n += n
+					if err != nil {
+						res.err = err
+						break
+					}
+					time.Sleep(160 * time.Millisecond)
+				}
+				sinkDone <- res
+			}
+			c.Class("slow-sink-after-dialer-close")
+		}
 		reset := upstreamCloses && kind == "agent-tcp" && c.Bool("upstreamResets")
 		resetGo := make(chan struct{})
 		if upstreamCloses {
@@ -354,6 +398,30 @@ func TestC07Tunnel(t *testing.T) {
 		}
 		if (entry != cl.Nodes[0] || minBuf < 65535) && total >= 65536 {
 			c.NonTrivial()
+		}
+		if slowSink {
+			c.NonTrivial()
+			c.Stepf("one-way: %d bytes in %d writes via %s entering %s, upstream %s reads 4 KiB every 160 ms; the client closes right after its last write", total, len(ws), via, entry.ID, kind)
+			off := 0
+			for _, n := range ws {
+				if w, err := conn.Write(streamBytes(off, n)); err != nil || w != n {
+					c.Fatalf("C07: write of %d bytes returned %d, %v (one-way transfer into a slow reader)", n, w, err)
+				}
+				off += n
+			}
+			conn.Close()
+			select {
+			case res := <-sinkDone:
+				if res.n != total || res.bad >= 0 || res.err != io.EOF {
+					c.Fatalf("C07: the dialer wrote %d bytes and closed; the slow reader at the upstream received %d bytes (first wrong byte at %d) and then %v instead of all bytes followed by end of stream (via %s entering %s, upstream %s)", total, res.n, res.bad, res.err, via, entry.ID, kind)
+				}
+			case <-time.After(3 * Deadline()):
+				Missf(c, "C07: the slow reader at the upstream neither finished nor failed within %v", 3*Deadline())
+			}
+			if !Eventually(Deadline(), func() bool { return cl.Nodes[0].Srv.VerifUpstream().VerifOpenStreams() == 0 }) {
+				Missf(c, "C07: after both ends finished, the server still holds %d open streams to the upstream", cl.Nodes[0].Srv.VerifUpstream().VerifOpenStreams())
+			}
+			return
 		}
 		c.Stepf("writes %v read with %v via %s entering %s, upstream %s, upstream closes first=%v", ws, bufs, via, entry.ID, kind, upstreamCloses)
 		var wg sync.WaitGroup
